@@ -33,4 +33,4 @@ Proof. vm_compute. reflexivity. Qed.
 
 (* axioms the property theorems of this file depend on (one traversal for all of them) *)
 Definition C06_theorems := (@C06_exact, @C06_canon_injective, @C06_leaves_satisfy).
-Print Assumptions C06_theorems.
+Redirect "assumptions/C06" Print Assumptions C06_theorems.
